@@ -274,3 +274,70 @@ def declare_c22(E):
                    "channel_released": "ghost('unlinked') == old(ghost('unlinked')) + 1",
                },
                returns="none", raises={"EOFError": "True", "OSError": "True", "SSHException": "True"})
+
+
+# ---------------------------------------------------------------------------------------------------------- C21
+def declare_c21(E):
+    """routing of incoming channel data: stdout / stderr streams as ghost byte strings"""
+    from pyvc import specfuns
+    from pyvc.values import VBool
+    from contracts import specs
+
+    @specfuns.register("any_lock_held")
+    def _any_lock_held(I, args, fr):
+        return VBool(any(v > 0 for v in I.st.held.values()))
+    declare(E)
+    monitor(E)
+    E.declare_class("paramiko.buffered_pipe.BufferedPipe", {})
+    E.declare_ghost(out_stream="bytes", err_stream="bytes", err_buffered="bytes", moved_with_lock_held="bool", moves="int")
+    IS_OUT = "opaque_id(self) == ghost('stdout_pipe')"
+    E.declare_ghost(stdout_pipe="int", stderr_pipe="int")
+    E.contract("paramiko.buffered_pipe.BufferedPipe.feed", params={"data": "bytes"}, returns="none",
+               ghost={"out_stream": "(ghost('out_stream') + data) if %s else ghost('out_stream')" % IS_OUT,
+                      "err_stream": "ghost('err_stream') if %s else (ghost('err_stream') + data)" % IS_OUT,
+                      "err_buffered": "ghost('err_buffered') if %s else (ghost('err_buffered') + data)" % IS_OUT},
+               modifies=[], raises={})
+    # empty(): hands out everything still buffered (C26 verifies BufferedPipe itself); only used on the stderr pipe here
+    E.contract("paramiko.buffered_pipe.BufferedPipe.empty", returns="bytes",
+               cases=[dict(name="everything_buffered", when="True", result="ghost('err_buffered')")],
+               ghost={"err_buffered": "b''", "err_stream": "ghost('err_stream')[:len(ghost('err_stream')) - len(ghost('err_buffered'))]"},
+               requires={"stderr_pipe": "opaque_id(self) == ghost('stderr_pipe')"}, modifies=[], raises={})
+    PIPES = {"pipes": "ghost('stdout_pipe') == opaque_id(self.in_buffer) and ghost('stderr_pipe') == opaque_id(self.in_stderr_buffer)"
+                      " and ghost('stdout_pipe') != ghost('stderr_pipe')"}
+    E.contract("paramiko.transport.Transport._send_user_message", params={"data": "obj:Message"}, returns="none",
+               raises={"EOFError": "True", "OSError": "True", "SSHException": "True"}, modifies=[])
+    E.contract(C + "_check_add_window", params={"n": "nat"}, returns="int", raises={}, modifies=["self.in_window_sofar"])
+    STR = "m.packet.getvalue()[old(m.packet.tell()) + %d:old(m.packet.tell()) + %d + unpack32(m.packet.getvalue()[old(m.packet.tell()) + %d:old(m.packet.tell()) + %d])]"
+    WF = "0 <= m.packet.tell() and len(m.packet.getvalue()) - m.packet.tell() >= %d and unpack32(m.packet.getvalue()[m.packet.tell() + %d:m.packet.tell() + %d]) <= len(m.packet.getvalue()) - m.packet.tell() - %d"
+    E.contract(C + "_feed", params={"m": "union[obj:Message,bytes]"},
+               requires=dict(PIPES, well_formed="True if isbytes(m) else (" + WF % (4, 0, 4, 4) + ")"),
+               ensures={"data_appended_to_the_stdout_stream_and_nothing_else":
+                        "ghost('out_stream') == old(ghost('out_stream')) + (m if isbytes(m) else " + STR % (4, 4, 0, 4) + ")"
+                        " and ghost('err_stream') == old(ghost('err_stream'))"},
+               ghost={"moved_with_lock_held": "any_lock_held()", "moves": "ghost('moves') + 1",
+                      "out_stream": "ghost('out_stream') + (m if isbytes(m) else " + STR.replace("old(m.packet.tell())", "m.packet.tell()") % (4, 4, 0, 4) + ")"},
+               returns="none", raises={})
+    E.contract(C + "_feed_extended", params={"m": "obj:Message"},
+               requires=dict(PIPES, well_formed=WF % (8, 4, 8, 8)),
+               ensures={
+                   "stderr_data_goes_to_the_stderr_stream_or_with_combining_to_stdout":
+                       "(ghost('out_stream') == old(ghost('out_stream')) + (" + STR % (8, 8, 4, 8) + " if old(self.combine_stderr) else b'')"
+                       " and ghost('err_stream') == old(ghost('err_stream')) + (b'' if old(self.combine_stderr) else " + STR % (8, 8, 4, 8) + "))"
+                       " if unpack32(m.packet.getvalue()[old(m.packet.tell()):old(m.packet.tell()) + 4]) == 1 else"
+                       " (ghost('out_stream') == old(ghost('out_stream')) and ghost('err_stream') == old(ghost('err_stream')))"},
+               returns="none", raises={"EOFError": "True", "OSError": "True", "SSHException": "True", "struct.error": "True"})
+    E.contract(C + "set_combine_stderr", params={"combine": "bool"},
+               requires=dict(PIPES, unread_stderr_is_the_tail_of_the_stream=
+                             "len(ghost('err_buffered')) <= len(ghost('err_stream'))"
+                             " and ghost('err_stream')[len(ghost('err_stream')) - len(ghost('err_buffered')):] == ghost('err_buffered')"),
+               ensures={
+                   "returns_previous_setting_and_installs_the_new": "result == old(self.combine_stderr) and self.combine_stderr == combine",
+                   "unread_stderr_data_moves_to_the_end_of_stdout_when_switching_on":
+                       "(ghost('out_stream') == old(ghost('out_stream')) + old(ghost('err_buffered')) and len(ghost('err_buffered')) == 0)"
+                       " if (combine and not old(self.combine_stderr)) else"
+                       " (ghost('out_stream') == old(ghost('out_stream')) and ghost('err_buffered') == old(ghost('err_buffered')))",
+                   # fails on the pinned tree (known finding): the lock is dropped between emptying stderr and feeding stdout
+                   "the_move_happens_inside_the_critical_section":
+                       "implies(ghost('moves') > old(ghost('moves')), ghost('moved_with_lock_held'))",
+               },
+               returns="bool", raises={})
